@@ -2,6 +2,7 @@ package rules
 
 import (
 	"fmt"
+	"sort"
 	"go/types"
 	"strings"
 
@@ -627,7 +628,15 @@ func combinatorOps(c *core.Ctx) {
 			}
 		}
 		if ok && strings.Join(appended, ",") != strings.Join(e.nodes, ",") {
-			ok, why = false, fmt.Sprintf("appends %v, expected %v", appended, e.nodes)
+			// LiftF's two appends go to different sequences (the transformer into the fresh one, the fresh one into
+			// the morphism's code - each receiver is checked above): hanging the fresh sequence in first and filling
+			// it afterwards builds the same tree
+			sa, sb := append([]string{}, appended...), append([]string{}, e.nodes...)
+			sort.Strings(sa)
+			sort.Strings(sb)
+			if !(e.name == "LiftF" && strings.Join(sa, ",") == strings.Join(sb, ",")) {
+				ok, why = false, fmt.Sprintf("appends %v, expected %v", appended, e.nodes)
+			}
 		}
 		if ok && (nUnit == 1) != e.unit {
 			ok, why = false, fmt.Sprintf("%d unit() calls", nUnit)
